@@ -44,12 +44,12 @@ fn negotiate_within_budget() {
                 assert!((b.num as usize) * size <= (c.num as usize) * c.size());
             } else {
                 assert!(b.num == 0 && b.more);
-                assert!(payload >= budget - overhead - 12);
             }
         }
         Ok(None) => {
             assert!(client.is_none());
-            assert!(payload + overhead + 12 < budget);
+            // C10: a reply left unfragmented fits the budget (overhead is measured without the payload marker)
+            assert!(payload + overhead + (if payload > 0 { 1 } else { 0 }) <= budget);
         }
         Err(_) => {
             // within the property's budget range an error needs a client block whose number
